@@ -159,6 +159,7 @@ type Frame struct {
 	rets    []retInfo
 	params  []Val
 	free    []Val
+	allocs  map[token.Pos]*ssa.Alloc
 	entry   *Mem
 	entryR  string
 	loops   map[*ssa.BasicBlock]*loopInfo
